@@ -37,11 +37,11 @@ CORR = "hand-written Gallina model tied to the code by a correspondence check (t
 
 CHECKS = {
  "C01": C("proof",
-    "END-TO-END theorem C01_alm_panoc_converged_is_kkt over R for the composed executable model ALM (Alm.v) o PANOC (Panoc.v) on a problem given by f, grad f, g, grad g*y through the vtable model (AugLag.v): for every problem, provider mix (C04 obligations), direction / stop / clock oracle and parameter set, a Converged run returns x in C with "
-    "-(grad f + grad g y) within `tolerance` of N_C(x) componentwise, dist(g(x), D) <= dual_tolerance and complementary multipliers; the composed model is tied to the real ALMSolver<PANOCSolver> by whole-run correspondence (every callback of every inner solve). Plus the chain of links: ALM Converged <=> last inner solve Converged with eps <= tolerance and ||e||inf <= dual tolerance (model of alm.tpp, all inner-outcome scripts); inner Converged <=> eps <= tol (generated chain); "
+    "END-TO-END theorems C01_alm_{panoc,zerofpr,pantr,fista}_converged_is_kkt and C01_alm_panoc_lbfgs_converged_is_kkt (the library's default stack ALM o PANOC o L-BFGS, no hypothesis on the direction) over R for the composed executable models ALM (Alm.v) o inner solver loop model (Panoc.v, ZeroFpr.v, Pantr.v, FistaLoop.v, PanocDir.v) on a problem given by f, grad f, g, grad g*y through the vtable model (AugLag.v): for every problem, provider mix (C04 obligations), direction / stop / clock oracle and parameter set, a Converged run returns x in C with "
+    "-(grad f + grad g y) within `tolerance` of N_C(x) componentwise, dist(g(x), D) <= dual_tolerance and complementary multipliers; the composed models are tied to the real ALMSolver over PANOC / ZeroFPR / PANTR / FISTA and over PANOC with the four shipped direction providers by whole-run correspondence (every callback of every inner solve). Plus the chain of links: ALM Converged <=> last inner solve Converged with eps <= tolerance and ||e||inf <= dual tolerance (model of alm.tpp, all inner-outcome scripts); inner Converged <=> eps <= tol (generated chain); "
     "ApproxKKT residual <= tol => -grad psi(x_hat) within tol of the normal cone of C at x_hat componentwise (any box, any step size); g(x_hat) - e in D so dist(g, D) <= |e|; positive (negative) multiplier only where g - ub = e (g - lb = e); the library's KKT-error stationarity is a lower bound of that distance. "
     "Oracle: for every ALM run returning Converged over all 10 shipped stacks the three KKT quantities are recomputed from f, grad f, g, grad g*y and the boxes only and compared with the tolerances and with compute_kkt_error; prox-step kernel correspondence on the run records.",
-    "4/C01", TB_REALS + CORR + "the end-to-end theorem is for PANOC as inner solver (ZeroFPR / PANTR / FISTA have whole-loop exit contracts, Properties_ZEROFPR/PANTR/FISTA.v, but are not composed with ALM in Coq); l1 off; for m = 0 the theorem needs tolerance > 0 (the code replaces a non-positive inner tolerance by 1e-8).",
+    "4/C01", TB_REALS + CORR + "for StructuredLBFGS / Anderson providers under ALM the dimension obligations of the generic theorem are hypotheses (those stacks are tied by the composed whole-run correspondence); ZeroFPR with shipped providers is not composed under ALM; l1 off; for m = 0 the theorem needs tolerance > 0 (the code replaces a non-positive inner tolerance by 1e-8).",
     "Coq end-to-end proof on the composed ALM o PANOC model (whole-run correspondence with the real stack) + proof chain (ALM model, generated chain, normal-cone lemmas) + KKT recomputation oracle on real ALM runs"),
  "C02": C("proof",
     "PARTIAL. Proved for all strongly convex QPs, boxes and dimensions: an approximate KKT pair with tolerances (eps, delta) - what Converged certifies (C01) - satisfies mu|x-x*|^2 <= eps|x-x*|_1 + delta|y-y*|_1 against the exact KKT pair (monotonicity of box normal cones, Hoelder). "
@@ -89,9 +89,10 @@ CHECKS = {
     "Coq ring refinement + QR algebra + whole-history correspondence + numeric oracle"),
  "C11": C("proof",
     "19 theorems over R for ANY symmetric linear operator B (possibly indefinite), all g, Delta>0: termination, CG invariant, |s| <= Delta, returned value = model value, <= 0, <= every point of the steepest-descent ray hence <= Cauchy point, boundary exits on the sphere, interior exit reason, roots bracket zero, zero gradient gives the zero step, Newton-TR active components = forward-backward step and value = combined decrease. "
-    "Correspondence at binary64 incl. Hessian-product counts; oracle with an independent Cauchy value.",
-    "4/C11", TB_REALS + CORR + "finite_diff path of NewtonTR not covered; known finding C11:alpha-overflow-nan-step (deliberate NaN signalling on overflow of alpha).",
-    "Coq proofs over R for arbitrary symmetric operators + correspondence + Cauchy oracle"),
+    "NewtonTRDirection (incl. the finite-difference Hessian-vector path) is modelled as a state machine inside the PANTR loop (DirectionsTR.v, PantrDir.v): PANTRDIR_newtontr_step_is_feasible_and_beats_cauchy composes these guarantees with the loop (every direction call of every run); whole runs of the real PANTRSolver<NewtonTRDirection> agree with the model at binary64. "
+    "Correspondence at binary64 incl. Hessian-product counts; oracle with an independent Cauchy value (also on every recorded direction call of the whole runs).",
+    "4/C11", TB_REALS + CORR + "the composition takes symmetric linearity of the (finite-difference) reduced operator as a hypothesis; known finding C11:alpha-overflow-nan-step (deliberate NaN signalling on overflow of alpha).",
+    "Coq proofs over R for arbitrary symmetric operators (kernel and composed with the PANTR loop model) + direct-call and whole-run correspondence + Cauchy oracle"),
  "C12": C("proof",
     "12 theorems: index sets J/K sorted and partition [0,n) for every mask; storage and qr layouts tile their buffers for all dimensions; forward cost = sum of stage costs + penalties along the roll-out for arbitrary f,h,l,c; backward sweep = transposed linearisation (adjoint identity for every perturbation, by induction on N, incl. penalty terms); Riccati factor+solve satisfies the KKT system of the masked equality-constrained QP for every horizon and mask (PARTIAL: stationarity, not minimality). "
     "Correspondence (teacher-forced problem functions) and oracle: independent roll-out, complex-step gradient, dense KKT solve, both factorisations, all 2^nu masks.",
